@@ -72,6 +72,9 @@ def run(prop, tier):
             f.write(json.dumps(c) + '\n')
     rp = os.path.join(vlib.subdir('results'), 'api.ndjson')
     vlib.run([vh, 'api-replay', '--in', cp, '--out', rp], check=True)
+    # End on a run whose qualified polynomials sum to zero (reference dealer, harness/dkgsim/refdealer.go): accepted, fails, not running
+    import dkg
+    dkg.run_refdeal(ck, prop, tier, vh, seed, only_shapes=['zero-const'])
     n = 0
     mism = 0
     for line, c in zip(open(rp), cases):
